@@ -27,7 +27,7 @@ def load (h : Bytes → Nat) (sorter : List (Item V) → List (Item V)) (st : St
     answered with the error "key too large", ≥ 3·2^29 pairs with the panic "too many items" -/
 structure Fits (kvs : List (Bytes × V)) : Prop where
   keys32 : ∀ kv ∈ kvs, kv.1.length ≤ maxU32
-  count : kvs.length < 1610612736
+  count : CountOk kvs.length
 
 /-! ## the sorter hypothesis is satisfiable (non-vacuity of every theorem below) -/
 
@@ -46,16 +46,33 @@ theorem msort_isSlotSort : IsSlotSort (msort (V := V)) := by
 theorem slots_pos {n s : Nat} (hs : calcSlots n = .ok s) : 0 < s ∧ s < 2147483648 :=
   calcSlots_range hs
 
-/-- no "too many items" panic (and no index panic in the prime table) below 2^30 items -/
-theorem slots_no_panic {n : Nat} (hn : n < 1073741824) : ∃ s, calcSlots n = .ok s :=
-  (calcSlots_ok_iff n).mpr (by omega)
+/-- no "too many items" panic (and no index panic in the prime table) exactly when
+    ⌊n / loadfactor⌋ < 2^31 (`CountOk`), for whatever value the load factor has — only
+    `0 < loadfactor ≤ 1` (`lf_pos`, `lf_le`) is used anywhere in the C07 proofs -/
+theorem slots_no_panic_iff (n : Nat) : (∃ s, calcSlots n = .ok s) ↔ CountOk n := calcSlots_ok_iff n
 
-/-- exact threshold of the panic: 3·2^29 items -/
-theorem slots_panic_iff (n : Nat) : calcSlots n = .panic "too many items" ↔ 1610612736 ≤ n :=
+theorem slots_panic_iff (n : Nat) : calcSlots n = .panic "too many items" ↔ ¬ CountOk n :=
   calcSlots_panic_iff n
 
-/-- "a prime bigger than n": the table always has more slots than items -/
-theorem slots_gt {n s : Nat} (hs : calcSlots n = .ok s) : n < s := calcSlots_gt hs
+/-- below 2^30 items there is no panic, for every load factor ≥ 1/2 -/
+theorem slots_no_panic (hhalf : Facts.loadfactorDen ≤ 2 * Facts.loadfactorNum) {n : Nat}
+    (hn : n < 1073741824) : ∃ s, calcSlots n = .ok s :=
+  (calcSlots_ok_iff n).mpr (countOk_of_lt_2pow30 hhalf hn)
+
+/-- for the load factor as it is today (3/4) the panic threshold is exactly 3·2^29 items -/
+theorem slots_panic_iff_current (h3 : Facts.loadfactorNum = 3) (h4 : Facts.loadfactorDen = 4) (n : Nat) :
+    calcSlots n = .panic "too many items" ↔ 1610612736 ≤ n := by
+  rw [calcSlots_panic_iff, countOk_iff_current h3 h4]; omega
+
+/-- "a prime bigger than n" — the table always has more slots than items — whenever every table
+    entry b is at least loadfactor·2^b; `slots_gt_current`: that is so for today's 3/4 and table -/
+theorem slots_gt
+    (htab : ∀ b, b < Facts.bits2primes.length →
+      Facts.loadfactorNum * 2 ^ b ≤ Facts.loadfactorDen * (Facts.bits2primes[b]?.getD 0).toNat)
+    {n s : Nat} (hs : calcSlots n = .ok s) : n < s := calcSlots_gt_of_table htab hs
+
+theorem slots_gt_current (h3 : Facts.loadfactorNum = 3) (h4 : Facts.loadfactorDen = 4)
+    {n s : Nat} (hs : calcSlots n = .ok s) : n < s := calcSlots_gt_current h3 h4 hs
 
 /-! ## Get = lookup -/
 
@@ -80,14 +97,14 @@ theorem get_eq_lookup (h : Bytes → Nat) (sorter : List (Item V) → List (Item
 theorem get_eq_lookup_slices (h : Bytes → Nat) (sorter : List (Item V) → List (Item V))
     (hs : IsSlotSort sorter) (st : StrMap V) (kk : List Bytes) (vv : List V) (s : Bytes)
     (hlen : kk.length = vv.length) (hd : kk.Nodup) (hk : ∀ k ∈ kk, k.length ≤ maxU32)
-    (hn : kk.length < 1610612736) :
+    (hn : CountOk kk.length) :
     (loadFromSlice h sorter st kk vv).1 = .ok () ∧
     get h (loadFromSlice h sorter st kk vv).2 s = .ok (List.lookup s (kk.zip vv)) := by
   have h1 : (kk.zip vv).map (·.1) = kk := List.map_fst_zip (by omega)
   have h2 : (kk.zip vv).map (·.2) = vv := List.map_snd_zip (by omega)
   have hf : Fits (kk.zip vv) := ⟨by
     intro kv hkv; exact hk _ (List.of_mem_zip hkv).1, by
-    rw [List.length_zip]; omega⟩
+    rw [List.length_zip, ← hlen, Nat.min_self]; exact hn⟩
   have hd' : MapSpec.DistinctKeys (kk.zip vv) := by unfold MapSpec.DistinctKeys; rw [h1]; exact hd
   have a := load_ok h sorter hs st (kk.zip vv) hf
   have b := get_eq_lookup h sorter hs st (kk.zip vv) s hd' hf
@@ -157,7 +174,7 @@ theorem failed_load_unchanged (h : Bytes → Nat) (sorter : List (Item V) → Li
     outcome of `LoadFromSlice` comes with an unchanged instance or is the "too many items" panic -/
 theorem load_outcomes (h : Bytes → Nat) (sorter : List (Item V) → List (Item V))
     (hs : IsSlotSort sorter) (st : StrMap V) (kk : List Bytes) (vv : List V)
-    (hn : kk.length < 1610612736) :
+    (hn : CountOk kk.length) :
     loadFromSlice h sorter st kk vv = (.err .kvLen, st) ∨
     loadFromSlice h sorter st kk vv = (.err .keyTooLarge, st) ∨
     (loadFromSlice h sorter st kk vv).1 = .ok () := by
@@ -171,7 +188,8 @@ theorem load_outcomes (h : Bytes → Nat) (sorter : List (Item V) → List (Item
       have h1 : (kk.zip vv).map (·.1) = kk := List.map_fst_zip (by omega)
       have h2 : (kk.zip vv).map (·.2) = vv := List.map_snd_zip (by omega)
       have := load_ok h sorter hs st (kk.zip vv) ⟨by
-        intro kv hkv; exact hk _ (List.of_mem_zip hkv).1, by rw [List.length_zip]; omega⟩
+        intro kv hkv; exact hk _ (List.of_mem_zip hkv).1, by
+        rw [List.length_zip, ← hlen, Nat.min_self]; exact hn⟩
       unfold load at this
       rw [h1, h2] at this
       exact this
@@ -183,7 +201,7 @@ theorem empty_loaded (h : Bytes → Nat) (sorter : List (Item V) → List (Item 
     (hs : IsSlotSort sorter) (st : StrMap V) (s : Bytes) :
     (load h sorter st []).1 = .ok () ∧ (load h sorter st []).2.ht.size = 1 ∧
     len (load h sorter st []).2 = 0 ∧ get h (load h sorter st []).2 s = .ok none := by
-  have hf : Fits ([] : List (Bytes × V)) := ⟨(by intro kv hkv; cases hkv), (by simp)⟩
+  have hf : Fits ([] : List (Bytes × V)) := ⟨(by intro kv hkv; cases hkv), (show CountOk 0 by decide)⟩
   refine ⟨load_ok h sorter hs st [] hf, ?_, (len_items h sorter hs st [] hf).1, ?_⟩
   · obtain ⟨m', hm, hL⟩ := loadFromSlice_spec h sorter hs st [] hf.count hf.keys32
     unfold load; rw [hm]
@@ -214,7 +232,7 @@ def runHist (h : Bytes → Nat) (sorter : List (Item V) → List (Item V)) (st :
 /-- a request is admissible when, if its slices have equal length, the keys are distinct and within
     the size limits (a request with unequal lengths is always admissible: it must fail) -/
 def Admissible (ld : MapSpec.Load V) : Prop :=
-  ld.kk.length = ld.vv.length → ld.kk.Nodup ∧ (∀ k ∈ ld.kk, k.length ≤ maxU32) ∧ ld.kk.length < 1610612736
+  ld.kk.length = ld.vv.length → ld.kk.Nodup ∧ (∀ k ∈ ld.kk, k.length ≤ maxU32) ∧ CountOk ld.kk.length
 
 /-- the representation invariant tying an instance to the Go map `g` it stands for -/
 def Rep (h : Bytes → Nat) (m : StrMap V) (g : MapSpec.GoMap V) : Prop :=
@@ -253,7 +271,8 @@ theorem history_get_len (h : Bytes → Nat) (sorter : List (Item V) → List (It
       have h1 : (ld.kk.zip ld.vv).map (·.1) = ld.kk := List.map_fst_zip (by omega)
       have h2 : (ld.kk.zip ld.vv).map (·.2) = ld.vv := List.map_snd_zip (by omega)
       obtain ⟨m', hm, hL⟩ := loadFromSlice_spec h sorter hs m (ld.kk.zip ld.vv)
-        (by rw [List.length_zip]; omega) (by intro kv hkv; exact hk _ (List.of_mem_zip hkv).1)
+        (by rw [List.length_zip, ← hlen, Nat.min_self]; exact hn)
+        (by intro kv hkv; exact hk _ (List.of_mem_zip hkv).1)
       rw [h1, h2] at hm
       rw [hm]
       apply ih m' _ hrest
@@ -273,7 +292,7 @@ theorem str2str_get (h : Bytes → Nat) (sorter : List (Item Int) → List (Item
     (hs : IsSlotSort sorter) (sm : Str2Str) (kk vv : List Bytes) (s : Bytes)
     (hlen : kk.length = vv.length) (hd : kk.Nodup)
     (hk : ∀ k ∈ kk, k.length ≤ maxU32) (hv : ∀ v ∈ vv, v.length ≤ maxU32)
-    (hn : kk.length < 1610612736) :
+    (hn : CountOk kk.length) :
     (s2sLoad h sorter sm kk vv).1 = .ok () ∧
     s2sGet h (s2sLoad h sorter sm kk vv).2 s = .ok (List.lookup s (kk.zip vv)) ∧
     s2sLen (s2sLoad h sorter sm kk vv).2 = .ok kk.length := by
@@ -299,7 +318,8 @@ theorem str2str_get (h : Bytes → Nat) (sorter : List (Item Int) → List (Item
   · unfold s2sLen
     simp only
     have hf : Fits (kk.zip (packLoop vv 0).2) := ⟨by
-      intro kv hkv; exact hk _ (List.of_mem_zip hkv).1, by rw [List.length_zip]; omega⟩
+      intro kv hkv; exact hk _ (List.of_mem_zip hkv).1, by
+      rw [List.length_zip, ← hidlen, Nat.min_self]; exact hn⟩
     have h1 : (kk.zip (packLoop vv 0).2).map (·.1) = kk := List.map_fst_zip (by omega)
     have h2 : (kk.zip (packLoop vv 0).2).map (·.2) = (packLoop vv 0).2 := List.map_snd_zip (by omega)
     have := (len_items h sorter hs (mapOrNew sm.strMap)
